@@ -14,7 +14,65 @@ def main(tier):
                         'mixed-case HTML trees are built through the API (no parser would produce them); parser-built trees are covered by the trace part']
     replay.run_cfg(chk, 'MC_C11', {'MaxKids': 1 if tier == 'quick' else 2}, 'case%d' % (1 if tier == 'quick' else 2))
     trace_part(chk, tier)
+    rand_case_part(chk, tier)
     return chk.finish()
+
+
+def rand_case_part(chk, tier):
+    """B2 on random trees: element names, attribute names and values in random ASCII case, the same abstract tree built as an HTML
+    document (html.parser builder, case preserved through the API), as XML and as XHTML (lxml-xml builder); random selectors of the C01
+    grammar whose names / values are re-cased at random, with random i / s flags.  Trace_Select (CssDecl!NameKey / Insensitive) decides."""
+    rng = random.Random(common.SEED * 7919 + 1111)
+    ndocs, nsel = (24, 10) if tier == "quick" else (2500, 16)
+
+    def recase(cp_list):
+        return [c - 32 if 97 <= c <= 122 and rng.random() < 0.4 else c + 32 if 65 <= c <= 90 and rng.random() < 0.4 else c for c in cp_list]
+
+    def recase_ast(node):
+        if isinstance(node, dict):
+            out = {}
+            for k, v in node.items():
+                if k in ('name', 'v', 'val') and isinstance(v, list) and rng.random() < 0.6:
+                    out[k] = recase(v)
+                elif k == 'flag' and node.get('op') not in (None, 'ex') and rng.random() < 0.4:
+                    out[k] = rng.choice(['n', 'i', 's'])
+                else:
+                    out[k] = recase_ast(v)
+            return out
+        if isinstance(node, list):
+            return [recase_ast(x) for x in node] if not (node and all(isinstance(x, int) for x in node)) else node
+        return node
+    jobs = []
+    gen.EXCLUDE = set()
+    for k in range(ndocs):
+        base = gen.rand_doc(rng, nmax=12, xml=False, names=['ab', 'AB', 'Ab', 'c'])
+        for a_list in base['attrs']:
+            for a in a_list:
+                if rng.random() < 0.5:
+                    a['k'] = recase(a['k'])
+                    a['local'] = list(a['k'])
+                if rng.random() < 0.5 and not a.get('list'):
+                    a['v'] = recase(a['v'])
+            # an element cannot carry the same attribute name twice
+        asts = [recase_ast(gen.rand_list(rng, depth=rng.choice([0, 1, 2]), names=['ab', 'AB', 'c'])) for _ in range(nsel)]
+        import copy
+        for mode in ('html', 'xml', 'xhtml'):
+            d = copy.deepcopy(base)
+            d['xml'] = mode != 'html'
+            if mode == 'xhtml':
+                d['ns'] = [cps('http://www.w3.org/1999/xhtml') if kk == 'e' else [] for kk in d['kind']]
+            # duplicate attribute names (after case folding in HTML they would be two spellings of one attribute): keep the first
+            for a_list in d['attrs']:
+                seen = set()
+                for a in list(a_list):
+                    key = common.st(a['k']).lower()
+                    if key in seen:
+                        a_list.remove(a)
+                    seen.add(key)
+            jobs.append(('rc%d.%s' % (k, mode), d, asts, [0], None))
+    lines = trace.record_select(jobs)
+    trace.validate(chk, lines, 'Trace_Select', 'trace-randcase')
+    chk.notes['rand_case'] = {'documents': len(jobs), 'events': len(lines)}
 
 
 XLINK = 'http://www.w3.org/1999/xlink'
